@@ -9,9 +9,12 @@ R: TLC-generated histories (Gen_SortedIndex) executed by sorted_driver under sor
    settings, with extremes, duplicates and documents WITHOUT a value; TLC-generated writer
    histories (Gen_Core) replayed by core_driver on a sorted index.
 T: seeded random histories: sorted_driver (disjoint / overlapping value ranges = stack / k-way
-   merges, with deletes) and core_driver random --sorted v_asc|v_desc.
+   merges, with deletes; segments with live nulls next to deleted valued documents; the two largest
+   values of the domain in overlapping segments) and core_driver random --sorted v_asc|v_desc.
 Every recorded run is judged by TLC: SortedIndexTrace.tla (Sorted(seg) on the fast-field values,
-stored = fast = postings per document, content = sequential oracle) or CoreTrace.tla (ObsSorted +
+stored = fast = field norm per document, the posting list of EVERY term of every indexed field -
+text with positions, numeric, the paths of an indexed JSON object with text / i64 / bool / date /
+f64 leaves - designates exactly the documents that contain it, content = sequential oracle) or CoreTrace.tla (ObsSorted +
 sequential oracle)."""
 import json
 import os
@@ -45,6 +48,13 @@ POOL12 = {
     "str": ["", " ", "A", "Z", "a", "a ", "aa", "ab", "b", "z", "zz", "é", "中"],
     "bytes": ["", "00", "0000", "0001", "01", "61", "6162", "7f", "80", "fe", "ff", "ffff"],
 }
+
+
+# the two largest values of the domain at the top (k-way merges must keep them apart); types whose domain has
+# no reachable top (date in whole seconds, f64 without NaN, str, bytes) take their ordinary pool
+POOLTOP = dict(POOL5, i64=[I64MIN, I64MIN + 1, 0, I64MAX - 1, I64MAX], u64=[0, 1, 5, U64MAX - 1, U64MAX],
+               f64=["-inf", "-1.7976931348623157e308", "0", "1.7976931348623157e308", "inf"])
+POOLS = {"5": POOL5, "top": POOLTOP}
 
 
 def keys_of(ty, pool):
@@ -115,7 +125,20 @@ def fixed_histories():
     D = lambda t: {"op": "del", "pred": {"k": "term", "t": t}}
     DI = lambda i: {"op": "del", "pred": {"k": "id", "id": i}}
     C, M = {"op": "commit"}, {"op": "merge"}
-    return [
+    directed = [
+        # disjoint ranges, second segment with a LIVE document without value and as many deleted documents with one:
+        # stacking is not allowed (the live null must travel to the front / the back)
+        [A(1, 0), A(2, 1), A(3, 1), C, A(4, -1, "b"), A(5, 3), A(6, 4, "c"), C, D("c"), C, M],
+        [A(1, 3), A(2, 4), A(3, -1, "b"), A(4, 4, "c"), A(5, 3, "c"), C, A(6, 0), A(7, 1), C, D("c"), C, M],
+        [A(1, 2), A(2, -1), A(3, 2, "c"), C, A(4, 0), A(5, -1, "b"), A(6, 1, "c"), A(7, 0, "c"), C, A(8, 3), A(9, 4), C, D("c"), C, M],
+    ]
+    top = [
+        # overlapping segments (k-way merge) holding the largest value of the domain and its predecessor
+        [A(1, 0), A(2, 4), C, A(3, 3), C, M],
+        [A(1, 0), A(2, 3), C, A(3, 4), C, M],
+        [A(1, 4), A(2, 3), A(3, 0), C, A(4, 3), A(5, 4), C, A(6, 4), A(7, 2), C, DI(3), C, M],
+    ]
+    return [(h, "5") for h in directed] + [(h, "top") for h in top] + [(h, "5") for h in [
         # the delete in the middle of a transaction whose documents get reordered
         [A(1, 3), A(2, 0), A(3, -1, "b"), D("a"), A(4, 2), A(5, 3, "b"), C, A(6, 1, "c"), A(7, -1, "c"), A(8, 4), C, DI(5), M],
         # only missing values; an all-missing segment next to a valued one
@@ -126,7 +149,7 @@ def fixed_histories():
         [A(1, 4), A(2, 0), A(3, 2, "b"), C, A(4, 4), A(5, 0, "b"), A(6, 2), C, DI(2), D("b"), C, M, {"op": "rollback"}, A(7, 1), C],
         # disjoint, with a deleted null (stack allowed) and with a live null (not allowed)
         [A(1, 0), A(2, -1, "b"), C, A(3, 3), A(4, 4), C, D("b"), C, {"op": "merge", "from": 0, "n": 2}, A(5, -1), A(6, 4), C, M],
-    ]
+    ]]
 
 
 def random_history(rng, profile):
@@ -136,26 +159,39 @@ def random_history(rng, profile):
     batches = rng.randint(2, 5)
     order = list(range(batches))
     rng.shuffle(order)
-    pmiss = rng.choice([0.0, 0.0, 0.15, 0.4])
+    pmiss = rng.choice([0.0, 0.0, 0.15, 0.4]) if profile != "nullstack" else 0.3
     for b in order:
+        batch = []
         for _ in range(rng.randint(1, 8)):
             if rng.random() < pmiss:
                 k = -1
+            elif profile == "nullstack":
+                k = 2 * b + rng.randint(0, 1)                    # strictly disjoint ranges
+            elif profile == "top":
+                k = rng.choice([0, TOP - 1, TOP])                # resolved to the two largest values of the pool
             elif profile == "disjoint":
                 k = min(nk - 1, 2 * b + rng.randint(0, 2))       # ranges touch at one value: ties across segments
             elif profile == "ties":
                 k = rng.choice([0, 1, nk - 1])
             else:
                 k = rng.randint(0, nk - 1)
-            ops.append({"op": "add", "id": nid, "t": rng.choice("abc"), "k": k})
+            ops.append({"op": "add", "id": nid, "t": rng.choice("abc"), "k": k, "j": rng.choice([0, 1, 1, 2, 3, 3])})
+            batch.append((nid, k))
             nid += 1
             x = rng.random()
+            if profile == "nullstack":
+                continue
             if x < 0.12:
                 ops.append({"op": "del", "pred": {"k": "term", "t": rng.choice("abc")}})
             elif x < 0.2:
                 ops.append({"op": "del", "pred": {"k": "id", "id": rng.randint(1, nid - 1)}})
+        if profile == "nullstack":
+            # delete documents WITH a value of a segment that also holds documents without one
+            valued = [i for i, k in batch if k >= 0]
+            for i in rng.sample(valued, min(len(valued), rng.randint(0, 3))):
+                ops.append({"op": "del", "pred": {"k": "id", "id": i}})
         ops.append({"op": "commit"})
-        if rng.random() < 0.25:
+        if rng.random() < 0.25 and profile != "nullstack":
             ops.append({"op": "merge", "from": rng.randint(0, 1), "n": 2})
     if rng.random() < 0.6:
         ops += [{"op": "del", "pred": {"k": "id", "id": rng.randint(1, nid - 1)}}, {"op": "commit"}]
@@ -165,10 +201,14 @@ def random_history(rng, profile):
     return ops
 
 
+TOP = 1001          # abstract rank of the largest value of the pool (TOP - 1: its predecessor)
+
+
 def concretise(ops, ty, order, pool, threads, flush_after, tag):
     keys = keys_of(ty, pool)
     n = len(keys)
-    ops2 = [dict(o, k=(o["k"] if o["k"] < 0 else o["k"] % n)) if o["op"] == "add" else o for o in ops]
+    rk = lambda k: k if k < 0 else (n - 1 - (TOP - k) if k >= TOP - 1 else k % n)
+    ops2 = [dict(o, k=rk(o["k"])) if o["op"] == "add" else o for o in ops]
     return {"cfg": {"type": ty, "order": order, "threads": threads, "flush_after": flush_after}, "keys": keys, "ops": ops2, "tag": tag}
 
 
@@ -210,17 +250,19 @@ def sorted_driver_runs(ctx):
     q = ctx.quick
     hs = []
     # R: hand-written + TLC-generated histories, every type x direction
-    gen = fixed_histories() + gen_histories(ctx, 24 if q else 400, ctx.seed)
-    for i, ops in enumerate(gen):
+    fixed = fixed_histories()
+    gen = fixed + [(h, "5") for h in gen_histories(ctx, 24 if q else 400, ctx.seed)]
+    for i, (ops, pool) in enumerate(gen):
         for ty in TYPES:
             for order in ("asc", "desc"):
-                fl = [0, 2] if i < len(fixed_histories()) else [rng.choice([0, 1, 2, 3])]
+                # the hand-written histories: one thread and no forced segment cut (the segments are the commits), and cut after 2
+                fl = [0, 2] if i < len(fixed) else [rng.choice([0, 1, 2, 3])]
                 for f in fl:
-                    hs.append(concretise(ops, ty, order, POOL5, 1 if f else rng.choice([1, 1, 2]), f, f"gen{i}"))
+                    hs.append(concretise(ops, ty, order, POOLS[pool], 1 if (f or i < len(fixed)) else rng.choice([1, 1, 2]), f, f"gen{i}"))
     n_gen = len(hs)
     # T: seeded random histories (disjoint / overlapping / heavy ties), bigger value pools
     for j in range(4 if q else 60):
-        for profile in ("disjoint", "overlap", "ties"):
+        for profile in ("disjoint", "overlap", "ties", "nullstack", "top"):
             ops = random_history(rng, profile)
             for ty in TYPES:
                 for order in ("asc", "desc"):
@@ -229,7 +271,7 @@ def sorted_driver_runs(ctx):
     tally(ctx, runs)
     n = judge(ctx, runs, "sorted")
     log(f"[R/T] sorted_driver: {n_gen} generated + {len(hs) - n_gen} random runs over {len(TYPES)} key types x 2 directions, {n} of {len(runs)} accepted")
-    ctx.sample({"kind": "TLC-generated history (abstract sort values 0..4, -1 = no value)", "ops": gen[len(fixed_histories())]})
+    ctx.sample({"kind": "TLC-generated history (abstract sort values 0..4, -1 = no value; j = shape of the JSON object)", "ops": gen[len(fixed)][0]})
     return runs
 
 
@@ -316,8 +358,33 @@ def binding_selftest(ctx, runs, core_events):
         e["obs"]["n"] -= 1
         e["obs"]["count_all"] -= 1
         return True
+    def m_json_posting(c):
+        # the posting list of a non-text JSON leaf designates another document of the segment
+        for e in c:
+            for s in (e.get("obs") or {}).get("segs", []):
+                ids = [r[1] for r in s["docs"]]
+                for t in s["terms"]:
+                    if t[0].startswith("js.n:") or t[0].startswith("js.even:"):
+                        here = {h[0] for h in t[1]}
+                        other = [i for i in ids if i not in here]
+                        if other:
+                            t[1][0][0] = other[0]
+                            return True
+        return False
+
+    def m_position(c):
+        e, s = first_seg(c, lambda s: any(t[0].startswith("body:") for t in s["terms"]))
+        t = next(t for t in s["terms"] if t[0].startswith("body:"))
+        t[1][0][1] = [p + 1 for p in t[1][0][1]]
+        return True
+
+    def m_term_lost(c):
+        e, s = first_seg(c, lambda s: len(s["terms"]) > 3)
+        s["terms"] = [t for t in s["terms"] if not t[0].startswith("js.")] if any(t[0].startswith("js.") for t in s["terms"]) else s["terms"][1:]
+        return True
     res = {}
-    for name, fn in (("two_documents_out_of_order", m_swap), ("fast_sort_value_changed", m_fastkey), ("unique_term_points_to_the_neighbour", m_posting),
+    for name, fn in (("json_leaf_posting_designates_another_document", m_json_posting), ("positions_shifted", m_position), ("terms_of_a_field_missing", m_term_lost),
+                     ("two_documents_out_of_order", m_swap), ("fast_sort_value_changed", m_fastkey), ("unique_term_points_to_the_neighbour", m_posting),
                      ("field_norm_of_another_document", m_norm), ("delete_hit_one_document_too_many", m_lost)):
         c = mut(fn)
         if c is None:
@@ -344,7 +411,7 @@ def binding_selftest(ctx, runs, core_events):
             res["core_two_rows_out_of_order"] = "rejected" if not r2.ok and (r2.rejected or r2.violated) else "ACCEPTED"
             break
     ctx.cov["binding_selftest"] = res
-    if "ACCEPTED" in res.values() or len(res) < 5:
+    if "ACCEPTED" in res.values() or len(res) < 7:
         raise vlib.ToolError(f"binding self-test: a corrupted trace was accepted: {res}")
 
 
